@@ -6,6 +6,7 @@
 From Coq Require Import List NArith ZArith Bool Arith Lia.
 From PQ Require Import CopyPath.Decision CopyPath.DecisionProofs
                        CopyPath.Groups CopyPath.GroupsProofs
+                       CopyPath.Filters CopyPath.FiltersProofs
                        CopyPath.Batches CopyPath.BatchesProofs
                        CopyPath.Splice CopyPath.SpliceProofs
                        Dremel.Model Dremel.Proofs.
@@ -172,6 +173,41 @@ Example C11_ex_buffered_then_packed :
   out_row_groups {| w_schema_set := true; w_encryption := false; w_max_rows := 1000; w_ncols := 2 |} 600
                  [APack 2 800] = Some [600; 800]%N.
 Proof. vm_compute; reflexivity. Qed.
+
+(** * Bloom filters of row groups written column-wise
+
+    The filter of a column is allocated before the values are written when
+    every source chunk knows its exact value count, and is left to
+    flushFilterPages otherwise (CopyPath/Filters.v).  Whatever mix of whole
+    row groups (exact counts) and row-range views of repeated columns (upper
+    bounds) is packed into one output row group, the filter written has the
+    size SplitBlockFilter.Size prescribes for the values of that row group —
+    the size the row path gives the same rows.  The hypothesis is what
+    chunkNumValuesIsExact promises: a chunk that claims an exact count
+    delivers that many values. *)
+Theorem C11_pack_filter_prescribed : forall bits chunks,
+  Forall chunk_honest chunks ->
+  pack_filter_bytes bits chunks = filter_size bits (sum_delivered chunks).
+Proof. exact pack_filter_prescribed. Qed.
+
+Theorem C11_rowgroup_filter_prescribed : forall bits repeated rows max_rows c,
+  chunk_honest c -> (rows <= max_rows)%N ->
+  rowgroup_filter_bytes bits repeated rows max_rows c = filter_size bits (sg_delivered c).
+Proof. exact rowgroup_filter_prescribed. Qed.
+
+(* non-vacuity: a whole row group of 900 values packed with a range view that declares at most 5000
+   values and delivers 4378: not allocated ahead, 10 bits per value of the 5278 values written *)
+Example C11_ex_pack_exact_with_inexact :
+  let chunks := [ {| sg_exact := true; sg_declared := 900; sg_delivered := 900 |};
+                  {| sg_exact := false; sg_declared := 5000; sg_delivered := 4378 |} ]%N in
+  Forall chunk_honest chunks /\ pack_filter_values chunks = None /\ pack_filter_bytes 10 chunks = 6624%N /\ filter_size 10 900 = 1152%N.
+Proof.
+  split; [repeat constructor; intro H; try discriminate H; reflexivity |].
+  repeat split; vm_compute; reflexivity.
+Qed.
+
+Print Assumptions C11_pack_filter_prescribed.
+Print Assumptions C11_rowgroup_filter_prescribed.
 
 Print Assumptions C11_decision_is_finite_cascade.
 Print Assumptions C11_buffered_rows_flushed_first.
